@@ -227,9 +227,8 @@ pub fn monitor(st: &Value, tables: &Tables) -> (Vec<String>, Vec<(i64, i64)>) {
     let mut vs: HashMap<i64, &Value> = HashMap::new();
     for s in st["vs"].as_array().unwrap() { vs.insert(geti(s, "off"), s); }
     if st["kwalk"] != st["kend"] || st["vwalk"] != st["vend"] { fail("C06.tiles"); }
-    let legal = |z: i64| [16, 24, 32, 48, 64, 80, 96, 112, 128, 256, 384, 512, 640, 768, 896, 1024].contains(&z) || (z > 1024 && z % 128 == 0);
     let class = |z: i64| -> usize { match z { 16 => 0, 24 => 1, 32 => 2, 48 => 3, 64 => 4, 80 => 5, 96 => 6, 112 => 7, 128 => 8, 256 => 9, 384 => 10, 512 => 11, 640 => 12, 768 => 13, 896 => 14, _ => 15 } };
-    for s in ks.values().chain(vs.values()) { if !legal(geti(s, "size")) { fail("C06.sizes"); } }
+    for s in ks.values().chain(vs.values()) { let z = geti(s, "size"); if z % 8 != 0 || z < 16 { fail("C06.sizes"); } }
     // chains
     let mut reach: Vec<i64> = vec![];
     let mut seen: HashSet<i64> = HashSet::new();
